@@ -9,7 +9,7 @@ open Rivaas.Lifecycle.Spec
 theorem dropWhile_replicate_self (k h : Nat) : (List.replicate k h).dropWhile (· == h) = [] := by
   induction k with
   | zero => rfl
-  | succ k ih => simp [List.replicate_succ, List.dropWhile_cons, ih]
+  | succ k ih => simp [List.replicate_succ, ih]
 
 theorem noInterleave_replicate (k h : Nat) : noInterleave (List.replicate k h) = true := by
   induction k with
